@@ -13,14 +13,25 @@
     exactly -- cost 0, so the Ukkonen cut-off cannot drop them -- up to the column where the copy ends,
     where the candidate is accepted unless a candidate is recorded already.
 
-    NOT proved here (C02 is partial in this respect): completeness of the banded DP for occurrences
-    WITH errors and for partial occurrences, the clauses for non-internal and anchored adapters with
-    indels, the three cut-position clauses, and that the k-mer prefilter lets such reads through (C07).
+    Also proved (Proofs/AlignFound.v): the with-indels clause.  For every adapter type that cannot skip
+    the beginning of the adapter -- regular 3', non-internal 3', anchored 3' and anchored 5' with indels,
+    and 'rightmost' 5' (aligned on the reversed strings) -- and indels enabled or disabled: whenever ANY
+    admissible occurrence exists (adapter prefix [0, re) against read[p, qe), placed as the type allows,
+    at least the minimum overlap long, with an alignment whose cost is within the tolerance for that
+    length), the aligner reports a match.  The argument combines C01's lower-bound invariant (every DP
+    cell is a lower bound for all admissible alignments ending there) with the Ukkonen cut-off (cells it
+    drops hold costs > k) and the two places where candidates are accepted (the column loop for full-length
+    occurrences, the last-column scan for occurrences that end at the end of the read).
+
+    NOT proved here (C02 is partial in this respect): the three cut-position clauses, error-free partial
+    occurrences for the types that may skip the beginning of the adapter (regular and non-internal 5',
+    'anywhere'; full copies are covered above), and that the k-mer prefilter lets such reads through
+    (C07; proved there for matches covering the whole adapter).
     Those rest on the correspondence (model = implementation for prefiltered match_to of all eight
     classes) and on the planted-occurrence / brute-force / cut-position oracle run against the
     implementation. *)
 From Coq Require Import ZArith List Bool Lia.
-From CV Require Import Generated.Scores Model.Align Model.Adapters Model.Kmer Proofs.AdapterProofs Proofs.KmerProofs Proofs.AlignDist Proofs.AlignComplete.
+From CV Require Import Generated.Scores Model.Align Model.Adapters Model.Kmer Proofs.AdapterProofs Proofs.KmerProofs Proofs.AlignDist Proofs.AlignOpt Proofs.AlignComplete Proofs.AlignFound.
 Import ListNotations.
 Open Scope Z_scope.
 
@@ -64,6 +75,51 @@ Theorem C02_locate_full_copy : forall thr cfg wq ref query p,
 Proof. exact locate_full_copy. Qed.
 Print Assumptions C02_locate_full_copy.
 
+(** the with-indels clause at the level of Aligner.locate: every flag set that cannot skip the beginning
+    of the reference; the occurrence is ref[0, re) against query[p, qe) with an alignment of cost c *)
+Theorem C02_locate_occurrence_found : forall thr cfg wq ref query p re qe c,
+  1 <= indel_cost cfg -> start_in_ref cfg = false ->
+  stop_in_query cfg = true \/ start_in_query cfg = true ->
+  1 <= zlen ref -> 0 <= thr (zlen ref) -> (forall L, thr L <= thr (zlen ref)) -> thr (zlen ref) <= zlen ref ->
+  (p = 0 \/ start_in_query cfg = true) ->
+  (re = zlen ref \/ (stop_in_ref cfg = true /\ qe = zlen query)) ->
+  (qe = zlen query \/ stop_in_query cfg = true) ->
+  0 <= p < qe -> qe <= zlen query -> 0 <= re <= zlen ref -> min_overlap cfg <= re ->
+  ed (loc_eqc cfg wq) (indel_cost cfg) (zslice (loc_s1 cfg wq ref) 0 re) (zslice (loc_s2 cfg wq query) p qe) c ->
+  c <= thr (eff_len cfg ref (loc_s1 cfg wq ref) re re) ->
+  locate thr cfg wq ref query <> None.
+Proof. exact locate_found. Qed.
+Print Assumptions C02_locate_occurrence_found.
+
+(** ... for the adapter classes: regular 3', non-internal 3', anchored 3' and anchored 5' (with indels;
+    without indels the anchored ones are the comparers above) *)
+Theorem C02_occurrence_found : forall thr ad read p re qe c,
+  uses_comparer ad = false -> class_reversed (a_type ad) = false -> start_in_ref (ad_cfg ad) = false ->
+  1 <= zlen (a_seq ad) -> 0 <= thr (zlen (a_seq ad)) -> (forall L, thr L <= thr (zlen (a_seq ad))) -> thr (zlen (a_seq ad)) <= zlen (a_seq ad) ->
+  (p = 0 \/ start_in_query (ad_cfg ad) = true) ->
+  (re = zlen (a_seq ad) \/ (stop_in_ref (ad_cfg ad) = true /\ qe = zlen read)) ->
+  (qe = zlen read \/ stop_in_query (ad_cfg ad) = true) ->
+  0 <= p < qe -> qe <= zlen read -> 0 <= re <= zlen (a_seq ad) -> a_min_overlap ad <= re ->
+  ed (loc_eqc (ad_cfg ad) (a_wq ad)) (indel_cost (ad_cfg ad))
+     (zslice (loc_s1 (ad_cfg ad) (a_wq ad) (a_seq ad)) 0 re) (zslice (loc_s2 (ad_cfg ad) (a_wq ad) (ad_query ad read)) p qe) c ->
+  c <= thr (eff_len (ad_cfg ad) (a_seq ad) (loc_s1 (ad_cfg ad) (a_wq ad) (a_seq ad)) re re) ->
+  match_to thr ad read <> None.
+Proof. exact match_to_found. Qed.
+Print Assumptions C02_occurrence_found.
+
+(** ... and for 'rightmost' 5' adapters, in the coordinates of the strings as given: adapter[rs, m)
+    against read[qs, qe), cut off at the beginning of the read at most (rs > 0 only with qs = 0) *)
+Theorem C02_occurrence_found_rightmost : forall thr ad read rs qs qe c,
+  a_type ad = RightmostFront -> a_force_anywhere ad = false ->
+  1 <= zlen (a_seq ad) -> 0 <= thr (zlen (a_seq ad)) -> (forall L, thr L <= thr (zlen (a_seq ad))) -> thr (zlen (a_seq ad)) <= zlen (a_seq ad) ->
+  (rs = 0 \/ qs = 0) -> 0 <= qs < qe -> qe <= zlen read -> 0 <= rs <= zlen (a_seq ad) -> a_min_overlap ad <= zlen (a_seq ad) - rs ->
+  ed (loc_eqc (ad_cfg ad) (a_wq ad)) (indel_cost (ad_cfg ad))
+     (zslice (loc_s1 (ad_cfg ad) (a_wq ad) (a_seq ad)) rs (zlen (a_seq ad))) (zslice (loc_s2 (ad_cfg ad) (a_wq ad) read) qs qe) c ->
+  c <= thr (eff_len (ad_cfg ad) (rev (a_seq ad)) (loc_s1 (ad_cfg ad) (a_wq ad) (rev (a_seq ad))) (zlen (a_seq ad) - rs) (zlen (a_seq ad) - rs)) ->
+  match_to thr ad read <> None.
+Proof. exact match_to_found_rightmost. Qed.
+Print Assumptions C02_occurrence_found_rightmost.
+
 (** non-vacuity: ^ACGT against ACGTTT with zero errors allowed is removed exactly *)
 Example C02_exact_anchored :
   match_to_prefiltered (thr_of [0;0;0;0;0]) (mkAd Prefix [65;67;71;84] false false false 4 false) [65;67;71;84;84;84]
@@ -89,4 +145,26 @@ Proof.
     assert (Hc : t = 0 \/ t = 1 \/ t = 2 \/ t = 3 \/ t = 4 \/ t = 5) by lia.
     destruct Hc as [->|[->|[->|[->|[->| ->]]]]]; vm_compute; reflexivity.
   - vm_compute. discriminate.
+Qed.
+
+(** non-vacuity of C02_occurrence_found: -a ACGTACGTAC (10%) on TTACGTTCGTACGG: the copy at [2, 12) has one
+    mismatch; all premises hold and the conclusion is the computed answer *)
+Definition ex3_ad : adapter := mkAd Back [65;67;71;84;65;67;71;84;65;67] true false true 3 false.
+Definition ex3_thr : Z -> Z := thr_of [0;0;0;0;0;0;0;0;0;0;1].
+Definition ex3_read : list Z := [84;84;65;67;71;84;84;67;71;84;65;67;71;71].
+Example C02_nonvacuous_occurrence :
+  uses_comparer ex3_ad = false /\ class_reversed (a_type ex3_ad) = false /\ start_in_ref (ad_cfg ex3_ad) = false /\
+  (forall L, ex3_thr L <= ex3_thr (zlen (a_seq ex3_ad))) /\ start_in_query (ad_cfg ex3_ad) = true /\ stop_in_query (ad_cfg ex3_ad) = true /\
+  ed (loc_eqc (ad_cfg ex3_ad) (a_wq ex3_ad)) (indel_cost (ad_cfg ex3_ad))
+     (zslice (loc_s1 (ad_cfg ex3_ad) (a_wq ex3_ad) (a_seq ex3_ad)) 0 10) (zslice (loc_s2 (ad_cfg ex3_ad) (a_wq ex3_ad) (ad_query ex3_ad ex3_read)) 2 12) 1 /\
+  1 <= ex3_thr (eff_len (ad_cfg ex3_ad) (a_seq ex3_ad) (loc_s1 (ad_cfg ex3_ad) (a_wq ex3_ad) (a_seq ex3_ad)) 10 10) /\
+  match_to ex3_thr ex3_ad ex3_read <> None.
+Proof.
+  split; [reflexivity|]. split; [reflexivity|]. split; [vm_compute; reflexivity|].
+  split.
+  { intros L. change (ex3_thr (zlen (a_seq ex3_ad))) with 1.
+    apply (thr_of_bounds [0;0;0;0;0;0;0;0;0;0;1] 0 1); [repeat constructor; lia | lia]. }
+  split; [vm_compute; reflexivity|]. split; [vm_compute; reflexivity|]. split.
+  { eapply ed_weak; [apply ed_mismatches; vm_compute; reflexivity|]. vm_compute. discriminate. }
+  split; [vm_compute; discriminate | vm_compute; discriminate].
 Qed.
